@@ -437,6 +437,15 @@ def run(tier, seed):
         if not rneg.violated:
             raise tlc.MachineryError('Strategy (eager variant) was expected to violate PassesAreComplete / CacheIsWhole')
     chk.note('negative test: Strategy with CVariant="eager" violates %s' % rneg.violated)
+    # unbounded layer: histories of any length / any number of versions (Apalache), Strategy implements StrategyInt (TLC)
+    from harness import apalache
+    rr = tlc.require_ok(tlc.run('StrategyRef', cfg='StrategyRef', timeout=900), 'StrategyRef')
+    chk.add_tlc(rr, 'StrategyRef', 'StrategyRef')
+    apalache.inductive(chk, 'StrategyInt', negative=[('CVariant = "atomic"', 'CVariant = "eager"')])
+    ra = apalache.check('StrategyInt', 'IndInit', 'CacheReplays', 1, 'ConstInit')
+    if not ra.ok:
+        raise tlc.MachineryError('apalache: action invariant CacheReplays fails from IndInv: %s' % ra.violated)
+    chk.note('apalache: action invariant StrategyInt!CacheReplays holds on every step from IndInv')
     r2 = tlc.require_ok(tlc.run('ExtSort', cfg='ExtSortMCq', timeout=900), 'ExtSort')
     chk.add_tlc(r2, 'ExtSort', 'ExtSortMCq')
     # behaviours for replay
